@@ -336,6 +336,10 @@ func (g *gen) acase() acaseT {
 	if r.Chance(1, 4) {
 		k.Tail = hx.Pick(r, []bstr{"42", "caf\xe9", "\x01", "a b", "x\x7f", "\U000e0001", "é", "\u2028", "%41", "\xff", "tab\t", "q?x=1"})
 	}
+	// the request's context is done when the handler fails (timeout of a backend call, client gave up)
+	if r.Chance(1, 6) {
+		k.CtxDone = r.Range(1, 2)
+	}
 	// a guard: c.Abort() first, then the error response
 	k.AbortFirst = r.Chance(1, 6)
 	// something had set a Content-Type before the error happened
@@ -423,6 +427,9 @@ func fixedCases() []caseT {
 	add(acaseT{Wire: "r", Len: 2, Pos: 1, Mask: 1, Tail: "\x01", Call: callT{Kind: "helper", Helper: 0, Err: boom}})
 	add(acaseT{Wire: "s", Len: 2, Pos: 1, Mask: 1, Tail: "caf\xe9", Call: callT{Kind: "helper", Helper: 0}})
 	add(acaseT{Wire: "r", Len: 2, Pos: 1, Mask: 1, Call: callT{Kind: "helper", Helper: 0, Err: &errT{Kind: "new", Msg: "user \x1b\U000e0001\xe9 not found"}}})
+	// deadline exceeded inside the handler, then FailStatus(504)
+	add(acaseT{Wire: "r", Len: 2, Pos: 1, Mask: 1, CtxDone: 2, Call: callT{Kind: "status", Status: 504, Err: &errT{Kind: "new", Msg: "backend timed out"}}})
+	add(acaseT{Wire: "s", Len: 3, Pos: 1, Mask: 1, CtxDone: 1, Call: callT{Kind: "helper", Helper: 9, Err: boom}})
 	// guard middleware: Abort, then Forbidden
 	add(acaseT{Wire: "r", Len: 3, Pos: 0, AbortFirst: true, Call: callT{Kind: "helper", Helper: 3, Err: boom}})
 	// a Content-Type already set when the handler fails (download handler; default-content-type middleware)
